@@ -622,3 +622,142 @@ def function_value(fa) -> Optional["Poly"]:
         c = d[0] if len(d) == 1 else ("and", sorted(d, key=cmp_key))
         val = ite_atom(c, v, val)
     return val
+
+
+def _empty_forms(k: str) -> Set[str]:
+    return {k, f"list({k})", f"tuple({k})", f"sorted({k})", f"{k}.items()", f"{k}.keys()", f"{k}.values()", f"list({k}.items())", f"list({k}.keys())", f"list({k}.values())", f"iter({k})"}
+
+
+def _is_empty_guard(g) -> Optional[str]:
+    """The collection (value id) a guard states to be EMPTY: `not K`, `len(K) == 0`, `len(K) < 1`; None otherwise."""
+    if g[0] == "truthy" and g[2] is False:
+        return g[1][4:-1] if g[1].startswith("len(") and g[1].endswith(")") else g[1]
+    if g[0] == "rel" and g[1] in ("==", "<=") and isinstance(g[2], str) and g[2].startswith("len(") and g[2].endswith(")") and g[3] is True:
+        return g[2][4:-1]
+    return None
+
+
+def shortcut_returns(fa: FuncAnalysis, loop: ast.AST, extra_empty: Iterable[str] = ()) -> List[Tuple[ast.Return, List[str], bool]]:
+    """Returns of `fa` that can be reached without entering `loop` (a fast path deciding for all items at once), each with its
+    path guards (as text) and whether it is *harmless*: among its guards is one stating that a collection K is empty, and the
+    loop ranges over K (its iterable, evaluated at the return under those guards, is K / list(K) / K.items() ...; or K is
+    one of `extra_empty`) - the loop would not have been entered. Anything else is a shortcut the caller has to judge."""
+    ln = fa.node_of(loop)
+    out = []
+    if ln is None or fa.cfg.every_path_from_passes(fa.cfg.entry.id, {ln.id}):
+        return out
+    it_here = fa.sym.canon(loop.iter)
+    for r in returns_in(fa):
+        rn = fa.node_of(r)
+        if rn is None or any(p is loop for p in parents(r)) or fa.cfg.every_path_from_passes(fa.cfg.entry.id, {ln.id}, to=rn.id):
+            continue
+        gs = fa.path_guards(r)
+        empties = [k for k in (_is_empty_guard(g) for g in gs) if k]
+        fine = False
+        for k in empties:
+            forms = _empty_forms(k)
+            if k in set(extra_empty) or it_here in forms:
+                fine = True
+                break
+            # the iterable is chosen per branch (`phi` / `ite`): the arm assigned in the block of the return, after it, must be a form of K
+            blk_owner = next((p for p in parents(r) if isinstance(p, ast.If) and r in p.body and len(p.body) == 1 and not p.orelse), None)
+            if blk_owner is None:
+                continue
+            holder = getattr(blk_owner, "_parent", None)
+            for field in ("body", "orelse"):
+                blk = getattr(holder, field, None)
+                if isinstance(blk, list) and blk_owner in blk:
+                    after = blk[blk.index(blk_owner) + 1:]
+                    for s in after:
+                        if isinstance(s, ast.Assign) and len(s.targets) == 1 and isinstance(loop.iter, ast.Name) and isinstance(s.targets[0], ast.Name) and s.targets[0].id == loop.iter.id:
+                            if fa.sym.canon(s.value, fa.node_of(s).id) in forms:
+                                fine = True
+                            break
+        if not fine and isinstance(loop.iter, ast.Name):
+            # `xs = ...; if not xs: return` with nothing re-binding xs before `for x in xs`: the very list about to be iterated is empty
+            own = next((p for p in parents(r) if isinstance(p, ast.If) and r in p.body and len(p.body) == 1 and not p.orelse), None)
+            if own is not None:
+                t = own.test
+                if isinstance(t, ast.UnaryOp) and isinstance(t.op, ast.Not):
+                    t = t.operand
+                elif isinstance(t, ast.Compare) and len(t.ops) == 1 and isinstance(t.ops[0], ast.Eq) and isinstance(t.comparators[0], ast.Constant) and t.comparators[0].value == 0:
+                    t = t.left
+                else:
+                    t = None
+                if isinstance(t, ast.Call) and isinstance(t.func, ast.Name) and t.func.id == "len" and len(t.args) == 1:
+                    t = t.args[0]
+                if isinstance(t, ast.Name) and t.id == loop.iter.id:
+                    rebound = [x for x in walk_function(fa.f.node) if isinstance(x, ast.Name) and isinstance(x.ctx, ast.Store) and x.id == t.id and own.lineno < x.lineno <= loop.lineno
+                               and not any(p is own for p in parents(x))]
+                    # stores in branches that exclude the guard's block (the `else` of an enclosing if) do not lie between the guard and the loop
+                    rebound = [x for x in rebound if not any(isinstance(p, ast.If) and any(own is q or any(own is z for z in ast.walk(q)) for q in p.body) and any(x is z for q in p.orelse for z in ast.walk(q)) for p in parents(x))]
+                    fine = not rebound
+        out.append((r, [cmp_key(g)[:100] for g in gs], fine))
+    return out
+
+
+def new_api_functions(an) -> Set[str]:
+    """Qualified names of functions that are new to the reviewed inventory and that no reviewed function reaches: by a call, or
+    by reading a property of that name. They are added API surface (an accessor, a report): nothing the reviewed mechanisms do
+    goes through them."""
+    cached = getattr(an, "_new_api", None)
+    if cached is not None:
+        return cached
+    new = {f.qual: f for f in an.prog.functions.values() if an.is_new_function(f)}
+    cg = an.callees()
+    by_name: Dict[str, Set[str]] = {}
+    for q, f in new.items():
+        by_name.setdefault(f.name, set()).add(q)
+    def _reached_by(x: ast.Attribute) -> Set[str]:
+        # `obj.name(...)` reaches a function of that name; a plain `obj.name` only a property (or a method taken as a value: passed on / stored)
+        par = getattr(x, "_parent", None)
+        called = isinstance(par, ast.Call) and par.func is x
+        plain_read = isinstance(par, (ast.Attribute, ast.Compare, ast.BoolOp, ast.UnaryOp, ast.If, ast.IfExp, ast.While, ast.BinOp, ast.Return, ast.Subscript, ast.FormattedValue)) or \
+            (isinstance(par, ast.Assign) and par.value is not x)
+        return {q for q in by_name[x.attr] if called or new[q].is_property or not (plain_read and isinstance(x.ctx, ast.Load)) and not isinstance(x.ctx, ast.Store)}
+    reached: Set[str] = set()
+    stack = []
+    for f in an.prog.functions.values():
+        if f.qual in new:
+            continue
+        hit = set(cg.get(f.qual, ())) & set(new)
+        for x in walk_function(f.node):
+            if isinstance(x, ast.Attribute) and x.attr in by_name:
+                hit |= _reached_by(x)
+        stack.extend(hit)
+    while stack:
+        q = stack.pop()
+        if q in reached:
+            continue
+        reached.add(q)
+        stack.extend((set(cg.get(q, ())) & set(new)) - reached)
+        for x in walk_function(new[q].node):
+            if isinstance(x, ast.Attribute) and x.attr in by_name:
+                stack.extend(_reached_by(x) - reached)
+    # reachable without a call by name: observer callbacks (`process_<Event>`, looked up by getattr), dunders, and overrides of a
+    # method name the reviewed tree already has (dynamic dispatch)
+    known_names = {f.name for f in an.prog.functions.values() if not an.is_new_function(f)}
+    out = {q for q in set(new) - reached if not new[q].name.startswith("process_") and not (new[q].name.startswith("__") and new[q].name.endswith("__")) and new[q].name not in known_names}
+    an._new_api = out
+    return out
+
+
+_LOG_METHODS = {"debug", "info", "warning", "error", "exception", "critical", "log", "isEnabledFor"}
+
+
+def is_logging_call(f: FuncInfo, call: ast.AST) -> bool:
+    """`logger.debug(...)` etc. on a module-level `logger = logging.getLogger(...)`: formats its arguments, keeps nothing."""
+    if not (isinstance(call, ast.Call) and isinstance(call.func, ast.Attribute) and call.func.attr in _LOG_METHODS and isinstance(call.func.value, ast.Name)):
+        return False
+    nm = call.func.value.id
+    for st in f.module.tree.body:
+        if isinstance(st, ast.Assign) and any(isinstance(t, ast.Name) and t.id == nm for t in st.targets) and isinstance(st.value, ast.Call):
+            if ast.unparse(st.value.func) in ("logging.getLogger", "getLogger"):
+                return True
+    return False
+
+
+def in_logging_statement(f: FuncInfo, node: ast.AST) -> bool:
+    """node is (part of) an argument of a statement that only emits a log record"""
+    st = enclosing_stmt(node)
+    return isinstance(st, ast.Expr) and is_logging_call(f, st.value)
